@@ -17,21 +17,21 @@ structure MArr (D : Nat) where
 
 instance {D : Nat} : Inhabited (MArr D) := ⟨⟨fun _ => 0, #[], #[], #[]⟩⟩
 
-def boxTotal {D} (sz : Fin D → Nat) : Nat := (List.finRange D).foldl (fun p d => p * sz d) 1
+private def boxTotal {D} (sz : Fin D → Nat) : Nat := (List.finRange D).foldl (fun p d => p * sz d) 1
 
 /-- strides of the flattened layout, x (dimension 0) fastest. -/
-def stridesOf {D} (sz : Fin D → Nat) : Array Nat :=
+private def stridesOf {D} (sz : Fin D → Nat) : Array Nat :=
   ((List.finRange D).foldl (fun (acc : Array Nat × Nat) d => (acc.1.push acc.2, acc.2 * sz d)) (#[], 1)).1
 
-def sizesOf {D} (sz : Fin D → Nat) : Array Nat := Array.ofFn sz
+private def sizesOf {D} (sz : Fin D → Nat) : Array Nat := Array.ofFn sz
 
-def unlin {D} (st sa : Array Nat) (lin : Nat) : Idx D :=
+private def unlin {D} (st sa : Array Nat) (lin : Nat) : Idx D :=
   fun d => (((lin / st[d.val]!) % sa[d.val]! : Nat) : Int)
 
-def MArr.mk' {D} (sz : Fin D → Nat) (data : Array Rat) : MArr D := ⟨sz, data, stridesOf sz, sizesOf sz⟩
+private def MArr.mk' {D} (sz : Fin D → Nat) (data : Array Rat) : MArr D := ⟨sz, data, stridesOf sz, sizesOf sz⟩
 
 /-- reader of a memoised array: bounds check and linear index in one pass. -/
-def MArr.get {D} (m : MArr D) (idx : Idx D) : Rat := Id.run do
+private def MArr.get {D} (m : MArr D) (idx : Idx D) : Rat := Id.run do
   let mut lin : Nat := 0
   for d in List.finRange D do
     let k := idx d
@@ -39,21 +39,21 @@ def MArr.get {D} (m : MArr D) (idx : Idx D) : Rat := Id.run do
     lin := lin + k.toNat * m.st[d.val]!
   return m.data[lin]!
 
-def MArr.ofFn {D} (sz : Fin D → Nat) (A : Arr D Rat) : MArr D :=
+private def MArr.ofFn {D} (sz : Fin D → Nat) (A : Arr D Rat) : MArr D :=
   let st := stridesOf sz
   let sa := sizesOf sz
   ⟨sz, Array.ofFn (n := boxTotal sz) (fun lin => A (unlin st sa lin.val)), st, sa⟩
 
-def fmtArr {D} (m : MArr D) : String := " ".intercalate (m.data.toList.map fmtRat)
+private def fmtArr {D} (m : MArr D) : String := " ".intercalate (m.data.toList.map fmtRat)
 
 /-! ### token readers -/
 
-def hexVal (c : Char) : Option Nat :=
+private def hexVal (c : Char) : Option Nat :=
   if '0' ≤ c ∧ c ≤ '9' then some (c.toNat - '0'.toNat)
   else if 'a' ≤ c ∧ c ≤ 'f' then some (c.toNat - 'a'.toNat + 10)
   else none
 
-def decodeHex : List Char → Option (List Char)
+private def decodeHex : List Char → Option (List Char)
   | [] => some []
   | a :: b :: r => do
       let x ← hexVal a
@@ -63,7 +63,7 @@ def decodeHex : List Char → Option (List Char)
   | _ => none
 
 /-- string token `h<hex>` (ASCII only). -/
-def str : Reader Key := do
+private def str : Reader Key := do
   let t ← tok
   match t.toList with
   | 'h' :: r =>
@@ -72,18 +72,18 @@ def str : Reader Key := do
       | none => throw s!"bad-op:str:{t}"
   | _ => throw s!"bad-op:str:{t}"
 
-def hexDigit (n : Nat) : Char := if n < 10 then Char.ofNat (48 + n) else Char.ofNat (87 + n)
+private def hexDigit (n : Nat) : Char := if n < 10 then Char.ofNat (48 + n) else Char.ofNat (87 + n)
 
 /-- keys are printed as `h<hex>` as well (they may contain separators or newlines). -/
-def fmtKey (k : Key) : String :=
+private def fmtKey (k : Key) : String :=
   String.ofList ('h' :: k.flatMap (fun c => [hexDigit (c.toNat / 16), hexDigit (c.toNat % 16)]))
-def fmtKeys (ks : List Key) : String := if ks.isEmpty then "-" else ",".intercalate (ks.map fmtKey)
+private def fmtKeys (ks : List Key) : String := if ks.isEmpty then "-" else ",".intercalate (ks.map fmtKey)
 
 private def natVec (d : Nat) : Reader (Fin d → Nat) := do
   let a := (← listOf d nat).toArray
   pure (fun i => a[i.val]!)
 
-def optNat : Reader (Option Nat) := do
+private def optNat : Reader (Option Nat) := do
   let t ← tok
   if t = "none" then pure none else
   match t.toNat? with
@@ -91,7 +91,7 @@ def optNat : Reader (Option Nat) := do
   | none => throw s!"bad-op:optnat:{t}"
 
 /-- `none` | `keys n h.. h..` -/
-def optKeys : Reader (Option (List Key)) := do
+private def optKeys : Reader (Option (List Key)) := do
   let t ← tok
   match t with
   | "none" => pure none
@@ -101,7 +101,7 @@ def optKeys : Reader (Option (List Key)) := do
   | _ => throw s!"bad-op:which:{t}"
 
 /-- `none` | `scalar s` | `vec n v…` | `mat R C v…` -/
-def spacingArg : Reader (SpacingArg Rat) := do
+private def spacingArg : Reader (SpacingArg Rat) := do
   let t ← tok
   match t with
   | "none" => pure .none
@@ -115,7 +115,7 @@ def spacingArg : Reader (SpacingArg Rat) := do
       pure (.mat (← listOf r (listOf c rat)))
   | _ => throw s!"bad-op:spacing:{t}"
 
-def sdMode : Reader SDMode := do
+private def sdMode : Reader SDMode := do
   let t ← tok
   match t with
   | "forward" => pure .forward
@@ -126,18 +126,18 @@ def sdMode : Reader SDMode := do
   | "sobel" => pure .sobel
   | _ => throw s!"bad-op:mode:{t}"
 
-def marr (D : Nat) (sz : Fin D → Nat) : Reader (MArr D) := do
+private def marr (D : Nat) (sz : Fin D → Nat) : Reader (MArr D) := do
   let a ← listOf (boxTotal sz) rat
   pure (MArr.mk' sz a.toArray)
 
 /-- spacing row of batch item `b`: `spacing[b, :]`. -/
-def spacingRow (N D : Nat) (b : Nat) (s : SpacingArg Rat) : Except String (Fin D → Rat) :=
+private def spacingRow (N D : Nat) (b : Nat) (s : SpacingArg Rat) : Except String (Fin D → Rat) :=
   (expandSpacing N D s).map (fun m => fun d => m b d.val)
 
-def stepM {D} (mode : SDMode) (sz : Fin D → Nat) (sp : Fin D → Rat) (a : Fin D) (m : MArr D) : MArr D :=
+private def stepM {D} (mode : SDMode) (sz : Fin D → Nat) (sp : Fin D → Rat) (a : Fin D) (m : MArr D) : MArr D :=
   MArr.ofFn sz (sdStep mode sz sp a m.get)
 
-def fmtDict {D} (l : List (Key × Option (MArr D))) : String :=
+private def fmtDict {D} (l : List (Key × Option (MArr D))) : String :=
   if l.isEmpty then "-" else
   "|".intercalate (l.map (fun (k, v) => match v with
     | some m => s!"{fmtKey k}:{fmtArr m}"
@@ -146,7 +146,7 @@ def fmtDict {D} (l : List (Key × Option (MArr D))) : String :=
 /-! ### fd.* -/
 
 /-- `fd.fd mode D sz… sdim dil h data…` → finite_differences along `sdim` (one batch item). -/
-def fdFd : Reader String := do
+private def fdFd : Reader String := do
   let mode ← sdMode
   let D ← nat
   let sz ← natVec D
@@ -162,7 +162,7 @@ def fdFd : Reader String := do
   else pure "err:value"
 
 /-- `fd.spacing N D <spacing>` → the expanded (N, D) matrix, row-major. -/
-def fdSpacing : Reader String := do
+private def fdSpacing : Reader String := do
   let N ← nat
   let D ← nat
   let s ← spacingArg
@@ -171,7 +171,7 @@ def fdSpacing : Reader String := do
   | .ok m => pure (" ".intercalate ((List.range N).flatMap (fun b => (List.range D).map (fun d => fmtRat (m b d)))))
 
 /-- common part of `fd.sd`: which/order handling and validation of the letters. -/
-def sdKeys (D : Nat) (which : Option (List Key)) (order : Option Nat) : Except String (List Key × List (DKey D)) :=
+private def sdKeys (D : Nat) (which : Option (List Key)) (order : Option Nat) : Except String (List Key × List (DKey D)) :=
   match sdWhich D which order with
   | none => .error "err:value"
   | some ks =>
@@ -180,7 +180,7 @@ def sdKeys (D : Nat) (which : Option (List Key)) (order : Option Nat) : Except S
       | some dks => .ok (ks, dks)
 
 /-- `fd.sd mode D sz… N b <spacing> <which> <order> data…` → `key:values|…` in dictionary order. -/
-def fdSd : Reader String := do
+private def fdSd : Reader String := do
   let mode ← sdMode
   let D ← nat
   let sz ← natVec D
@@ -202,7 +202,7 @@ def fdSd : Reader String := do
       pure (fmtDict (names.map (fun k => (k, ((toDKey D k).bind (fun dk => assoc dk res)).join))))
 
 /-- weights table: for each axis, for derivative order 0..2, `stride × 4` rationals. -/
-def wtsTable (D : Nat) (stride : Fin D → Nat) : Reader (Fin D → Nat → Nat → Nat → Rat) := do
+private def wtsTable (D : Nat) (stride : Fin D → Nat) : Reader (Fin D → Nat → Nat → Nat → Rat) := do
   let mut tabs : Array (Array (Array Rat)) := #[]
   for d in List.finRange D do
     let mut per : Array (Array Rat) := #[]
@@ -212,7 +212,7 @@ def wtsTable (D : Nat) (stride : Fin D → Nat) : Reader (Fin D → Nat → Nat 
   pure (fun d o r k => ((tabs[d.val]!)[o]!)[r * 4 + k]!)
 
 /-- `fd.sdb D sz… N b <spacing> <which> <order> stride… weights… data…` (mode='bspline'). -/
-def fdSdB : Reader String := do
+private def fdSdB : Reader String := do
   let D ← nat
   let sz ← natVec D
   let N ← nat
@@ -228,29 +228,32 @@ def fdSdB : Reader String := do
   | .ok sp =>
     match sdKeys D which order with
     | .error e => pure e
-    | .ok (_, dks) =>
+    | .ok (ks, dks) =>
       if dks.any (fun k => (List.finRange D).any (fun d => keyOrder k d > 2)) then pure "err:unsupported" else
       let osz : Fin D → Nat := fun d => stride d * (sz d - 3)
-      let res := spatialDerivativesBSpline (fun k => MArr.ofFn osz (bsplineDeriv stride wts sp k m.get)) dks
-      pure (fmtDict (res.map (fun (k, v) => (ofDKey k, v))))
+      -- every distinct sorted code is evaluated once (memo table), as `derivs[code]` in the code
+      let table := (uniqueKeys dks).map (fun k => (k, MArr.ofFn osz (bsplineDeriv stride wts sp k m.get)))
+      let res := spatialDerivativesBSpline (fun k => (assoc k table).getD default) dks
+      let names := dedupFirst ks
+      pure (fmtDict (names.map (fun k => (k, ((toDKey D k).bind (fun dk => assoc dk res)).join))))
 
 /-! ### flowcalc.* -/
 
-def field (D : Nat) (sz : Fin D → Nat) : Reader (Fin D → MArr D) := do
+private def field (D : Nat) (sz : Fin D → Nat) : Reader (Fin D → MArr D) := do
   let comps := (← listOf D (marr D sz)).toArray
   pure (fun i => comps[i.val]!)
 
 /-- src: flow.py:flow_derivatives @434-435: `spacing=None` ↦ `2 / (n - 1)` per axis, x first. -/
-def flowSpacing {D} (sz : Fin D → Nat) (s : SpacingArg Rat) : SpacingArg Rat :=
+private def flowSpacing {D} (sz : Fin D → Nat) (s : SpacingArg Rat) : SpacingArg Rat :=
   match s with
   | .none => .vec ((List.finRange D).map (fun d => (2 : Rat) / (((sz d : Nat) : Rat) - 1)))
   | s => s
 
-def fkeyOf (D : Nat) (k : Key) : Option (FKey D) :=
+private def fkeyOf (D : Nat) (k : Key) : Option (FKey D) :=
   (fkSplit k).bind (fun (c, ds) => if h : c < D then (toDKey D ds).map (fun dk => ((⟨c, h⟩ : Fin D), dk)) else none)
 
 /-- `flowcalc.derivs mode D sz… N b <spacing> <which> <order> data(D comps)…` -/
-def fcDerivs : Reader String := do
+private def fcDerivs : Reader String := do
   let mode ← sdMode
   let D ← nat
   let sz ← natVec D
@@ -273,7 +276,7 @@ def fcDerivs : Reader String := do
         pure (fmtDict ((dedupFirst keys).map (fun k => (k, ((fkeyOf D k).bind (fun fk => assoc fk res)).join))))
 
 /-- `flowcalc.derivs_b D sz… N b <spacing> <which> <order> stride… weights… data…` (mode='bspline'). -/
-def fcDerivsB : Reader String := do
+private def fcDerivsB : Reader String := do
   let D ← nat
   let sz ← natVec D
   let N ← nat
@@ -296,7 +299,8 @@ def fcDerivsB : Reader String := do
         if fks.any (fun k => (List.finRange D).any (fun d => keyOrder k.2 d > 2)) then pure "err:unsupported" else
         let osz : Fin D → Nat := fun d => stride d * (sz d - 3)
         let res := flowDerivatives (fun i ks =>
-          spatialDerivativesBSpline (fun k => MArr.ofFn osz (bsplineDeriv stride wts sp k (u i).get)) ks) fks
+          let table := (uniqueKeys ks).map (fun k => (k, MArr.ofFn osz (bsplineDeriv stride wts sp k (u i).get)))
+          spatialDerivativesBSpline (fun k => (assoc k table).getD default) ks) fks
         pure (fmtDict ((dedupFirst keys).map (fun k => (k, ((fkeyOf D k).bind (fun fk => assoc fk res)).join))))
 
 private def allIdx {D} (sz : Fin D → Nat) : List (Idx D) :=
@@ -304,12 +308,12 @@ private def allIdx {D} (sz : Fin D → Nat) : List (Idx D) :=
   let sa := sizesOf sz
   (List.range (boxTotal sz)).map (unlin st sa)
 
-def fmtOptList (l : List (Option (List Rat))) : String :=
+private def fmtOptList (l : List (Option (List Rat))) : String :=
   if l.any Option.isNone then "err:missing" else
   " ".intercalate (l.map (fun o => " ".intercalate ((o.getD []).map fmtRat)))
 
 /-- header shared by the pointwise flow ops: `mode D sz… N b <spacing>`. -/
-def fcHead : Reader (Σ D : Nat, (Fin D → Nat) × SDMode × Except String (Fin D → Rat)) := do
+private def fcHead : Reader (Σ D : Nat, (Fin D → Nat) × SDMode × Except String (Fin D → Rat)) := do
   let mode ← sdMode
   let D ← nat
   let sz ← natVec D
@@ -319,7 +323,7 @@ def fcHead : Reader (Σ D : Nat, (Fin D → Nat) × SDMode × Except String (Fin
   pure ⟨D, sz, mode, spacingRow N D b (flowSpacing sz s)⟩
 
 /-- `flowcalc.jacdet mode D sz… N b <spacing> addId data…` → values at all points (x fastest). -/
-def fcJacDet : Reader String := do
+private def fcJacDet : Reader String := do
   let ⟨D, sz, mode, spE⟩ ← fcHead
   let addId ← bool
   let u ← field D sz
@@ -332,7 +336,7 @@ def fcJacDet : Reader String := do
       ((entriesAt MArr.get dict (jacobianKeys D) idx).bind (fun J => jacobianDetPt D (addIdentityPt addId J))).map (fun v => [v]))))
 
 /-- `flowcalc.jacmat …` → at each point the D×D matrix row-major (layout of jacobian_matrix). -/
-def fcJacMat : Reader String := do
+private def fcJacMat : Reader String := do
   let ⟨D, sz, mode, spE⟩ ← fcHead
   let addId ← bool
   let u ← field D sz
@@ -345,7 +349,7 @@ def fcJacMat : Reader String := do
       ((entriesAt MArr.get dict (jacobianKeys D) idx).map (addIdentityPt addId)).map (fun J =>
         (List.finRange D).flatMap (fun i => (List.finRange D).map (fun j => J i j))))))
 
-def fcDiv : Reader String := do
+private def fcDiv : Reader String := do
   let ⟨D, sz, mode, spE⟩ ← fcHead
   let u ← field D sz
   match spE with
@@ -357,7 +361,7 @@ def fcDiv : Reader String := do
       ((entriesAt MArr.get dict (divergenceKeys D) idx).bind divergencePt).map (fun v => [v]))))
 
 /-- `flowcalc.curl …` → channel-major output (all points of channel 0, then channel 1, …). -/
-def fcCurl : Reader String := do
+private def fcCurl : Reader String := do
   let ⟨D, sz, mode, spE⟩ ← fcHead
   let u ← field D sz
   match spE with
@@ -370,7 +374,7 @@ def fcCurl : Reader String := do
     pure (fmtOptList ((List.range nch).flatMap (fun c => vals.map (fun o => o.map (fun l => [l[c]!])))))
 
 /-- `flowcalc.lie mode D sz… N b <spacing> v(D comps)… u(D comps)…` → channel-major. -/
-def fcLie : Reader String := do
+private def fcLie : Reader String := do
   let ⟨D, sz, mode, spE⟩ ← fcHead
   let v ← field D sz
   let u ← field D sz
@@ -388,60 +392,60 @@ def fcLie : Reader String := do
 
 /-! ### dkeys.* -/
 
-def fmtOptKeys : Option (List Key) → String
+private def fmtOptKeys : Option (List Key) → String
   | some ks => fmtKeys ks
   | none => "err:value"
 
-def keyList : Reader (List Key) := do
+private def keyList : Reader (List Key) := do
   let n ← nat
   listOf n str
 
-def dkSkCheck : Reader String := do pure (if skCheck (← str) then "ok" else "err:value")
-def dkSkSorted : Reader String := do
+private def dkSkCheck : Reader String := do pure (if skCheck (← str) then "ok" else "err:value")
+private def dkSkSorted : Reader String := do
   match skSorted (← str) with
   | some k => pure s!"={fmtKey k}"
   | none => pure "err:value"
-def dkSkIsMixed : Reader String := do pure (if skIsMixed (← str) then "1" else "0")
-def dkSkAll : Reader String := do
+private def dkSkIsMixed : Reader String := do pure (if skIsMixed (← str) then "1" else "0")
+private def dkSkAll : Reader String := do
   let D ← nat
   let o ← nat
   pure (fmtOptKeys (skAll D o))
-def dkSkUnmixed : Reader String := do
+private def dkSkUnmixed : Reader String := do
   let D ← nat
   let o ← nat
   pure (fmtOptKeys (skUnmixed D o))
-def dkSkUnique : Reader String := do pure (fmtOptKeys (skUnique (← keyList)))
-def dkSkMaxOrder : Reader String := do pure (toString (maxOrder (← keyList)))
-def dkFkFromArg : Reader String := do
+private def dkSkUnique : Reader String := do pure (fmtOptKeys (skUnique (← keyList)))
+private def dkSkMaxOrder : Reader String := do pure (toString (maxOrder (← keyList)))
+private def dkFkFromArg : Reader String := do
   let D ← nat
   let which ← optKeys
   let order ← optNat
   match fkFromArg D which order with
   | .ok ks => pure (fmtKeys ks)
   | .error e => pure e
-def dkFkSplit : Reader String := do
+private def dkFkSplit : Reader String := do
   match fkSplit (← str) with
   | some (c, ds) => pure s!"{c} {fmtKey ds}"
   | none => pure "err:value"
-def dkFkSorted : Reader String := do pure (fmtKeys (fkSorted (← keyList)))
-def dkFkUnique : Reader String := do pure (fmtOptKeys (fkUnique (← keyList)))
-def dkFkMaxOrder : Reader String := do
+private def dkFkSorted : Reader String := do pure (fmtKeys (fkSorted (← keyList)))
+private def dkFkUnique : Reader String := do pure (fmtOptKeys (fkUnique (← keyList)))
+private def dkFkMaxOrder : Reader String := do
   match fkMaxOrder (← keyList) with
   | some n => pure (toString n)
   | none => pure "err:value"
-def dkFkIsMixed : Reader String := do
+private def dkFkIsMixed : Reader String := do
   match fkIsMixed (← str) with
   | some b => pure (if b then "1" else "0")
   | none => pure "err:value"
-def dkFkAll : Reader String := do
+private def dkFkAll : Reader String := do
   let D ← nat
   let o ← nat
   pure (fmtOptKeys (fkAll D o))
-def dkFkUnmixed : Reader String := do
+private def dkFkUnmixed : Reader String := do
   let D ← nat
   let o ← nat
   pure (fmtOptKeys (fkUnmixed D o))
-def dkFkDivergence : Reader String := do pure (fmtOptKeys (fkDivergence (← nat)))
+private def dkFkDivergence : Reader String := do pure (fmtOptKeys (fkDivergence (← nat)))
 
 def fdHandlers : List (String × Reader String) :=
   [ ("fd.fd", fdFd), ("fd.spacing", fdSpacing), ("fd.sd", fdSd), ("fd.sdb", fdSdB),
